@@ -135,7 +135,8 @@ def check(run, replay):
                 first[0] = False
                 cfg = dict(cfg)
                 cfg.update({"nomsg": [("memleak", [b"memleak", "", -1, -1, -1, 0, b"", b"", 0, False, False, False, False])],
-                            "nofail": [("unmatchedSuppression", [b"unmatchedSuppression", "", -1, -1, -1, 0, b"", b"", 0, False, False, False, False])],
+                            "nofail": [("unmatchedSuppression", [b"unmatchedSuppression", "", -1, -1, -1, 0, b"", b"", 0, False, False, False, False]),
+                                       ("*", [b"*", "", -1, -1, -1, 0, b"", b"", 0, False, False, False, False])],
                             "exitcode": 7, "info": True, "inline": False, "kind": 0})
             return cfg
         return f
